@@ -347,7 +347,8 @@ impl Bytes {
         Bytes { id: content_id(s) }
     }
     /// sub-string: the whole range is the string itself; any other range is an uninterpreted
-    /// (injective) function of (string, start, end) — in particular never equal to the string
+    /// (NOT injective) function of (string, start, end): nothing is known about it except that the
+    /// same range of the same string is the same byte string
     pub fn slice(&self, r: impl core::ops::RangeBounds<u32>) -> Bytes {
         use core::ops::Bound::*;
         let start = match r.start_bound() {
@@ -374,7 +375,7 @@ impl Bytes {
         w.push(self.id);
         w.push(start as u64);
         w.push(end as u64);
-        Bytes { id: intern(w) }
+        Bytes { id: uf(w) }
     }
     /// content in a fixed stack buffer: traps if it does not fit; abstract content is handed out like
     /// `to_alloc_vec` does (identity parked for a contract stub, never silently "empty" for real code)
@@ -412,14 +413,14 @@ impl Bytes {
         w.push(0xA99E_4D);
         w.push(self.id);
         w.push(other.id);
-        self.id = intern(w);
+        self.id = uf(w); // variable-length concatenation is not injective: see shim::uf
     }
     pub fn push_back(&mut self, b: u8) {
         let mut w = Words::new();
         w.push(0x9054_BAC);
         w.push(self.id);
         w.push(b as u64);
-        self.id = intern(w);
+        self.id = uf(w);
     }
     /// Content of the byte string.  For an *abstract* byte string the content is unknown: an empty
     /// vector is handed out and the identity is parked in `shim::ABSTRACT_CONTENT_TAKEN`; only a
